@@ -65,8 +65,10 @@ def _prune(d, keep):
         return
     ents = sorted((os.path.getmtime(os.path.join(d, e)), e)
                   for e in os.listdir(d))
-    for _, e in ents[:-keep] if len(ents) > keep else []:
-        shutil.rmtree(os.path.join(d, e), ignore_errors=True)
+    now = time.time()
+    for mt, e in ents[:-keep] if len(ents) > keep else []:
+        if now - mt > 3 * 3600:     # never remove a tree that may be in use
+            shutil.rmtree(os.path.join(d, e), ignore_errors=True)
 
 
 def ensure(asan=False, verbose=True):
